@@ -44,9 +44,9 @@ namespace occa {
     void dontUseRefs();
     bool needsFree() const override;
     void addMemoryPoolRef(memoryPool *memPool);
-    void removeMemoryPoolRef(memoryPool *memPool);
+    bool removeMemoryPoolRef(memoryPool *memPool);
     void addModeMemoryRef(modeMemory_t *mem) override;
-    void removeModeMemoryRef(modeMemory_t *mem) override;
+    bool removeModeMemoryRef(modeMemory_t *mem) override;
 
    private:
     virtual modeBuffer_t* makeBuffer()=0;
